@@ -20,8 +20,11 @@ extern "C" { int vf_protect(const void *, int) __attribute__((weak)); int vf_pro
 static bool freezing() { return vf_protect_epoch && vf_guard_mode && vf_guard_mode() > 0 && opt("freeze", "1") == "1"; }
 struct Epoch { long from = 0, to = 0; };
 struct Freeze { Epoch e; std::vector<const void *> blocks; bool on;
-    Freeze(const Epoch &ep, std::vector<const void *> b) : e(ep), blocks(std::move(b)), on(freezing()) { if (!on) return; vf_protect_epoch(e.from, e.to, 1); for (auto p : blocks) if (p) vf_protect(p, 1); stat_sum("frozen_calls", 1); }
+    Freeze(const Epoch &ep, std::vector<const void *> b) : e(ep), blocks(std::move(b)), on(freezing()) { if (!on) return; int ke = vf_protect_epoch(e.from, e.to, 1); int miss = 0; for (auto p : blocks) if (p && !vf_protect(p, 1)) miss++; stat_sum("frozen_calls", 1); stat_sum("frozen_key_blocks", ke); stat_sum("freeze_missed_input_blocks", miss); }
     ~Freeze() { if (!on) return; vf_protect_epoch(e.from, e.to, 0); for (auto p : blocks) if (p) vf_protect(p, 0); } };
+// with the guard allocator every key-switching row is a mapping of its own: a (t,basebit) = (3,1) key keeps the whole key set within the guarded-block budget
+static int KT() { return freezing() ? 3 : 8; }
+static int KB() { return freezing() ? 1 : 2; }
 static long seq_now() { return vf_alloc_seq ? vf_alloc_seq() : 0; }
 static void warm_fft() { IntPolynomial *a = new_IntPolynomial(N); TorusPolynomial *b = new_TorusPolynomial(N), *r = new_TorusPolynomial(N); for (int i = 0; i < N; i++) { a->coefs[i] = 1; b->coefsT[i] = i; } torusPolynomialMultFFT(r, a, b); delete_IntPolynomial(a); delete_TorusPolynomial(b); delete_TorusPolynomial(r); }
 struct Env { Epoch ep; const char *name; const LweParams *lp; const CK *ck; const LweKey *s; std::function<uint64_t()> keyhash; int n; };
@@ -123,18 +126,20 @@ int main(int argc, char **argv) {
     struct Cf { int n, k, l, Bgbit; } cfs[] = {{8, 1, 2, 10}, {8, 2, 3, 7}, {8, 1, 1, 16}, {8, 1, 4, 8}, {8, 2, 1, 10}};
     for (auto c : cfs) {
         std::string prefix = fmt("function/k=%d/l=%d/Bgbit=%d/", c.k, c.l, c.Bgbit);
-        if (take_group(prefix) && !deadline()) { Epoch ep; ep.from = seq_now(); ek::Set *S = ek::make(c.n, c.k, c.l, c.Bgbit, 8, 2, 71); ep.to = seq_now(); function_cases(S, ep); ek::destroy(S); }
+        if (take_group(prefix) && !deadline()) { Epoch ep; ep.from = seq_now(); ek::Set *S = ek::make(c.n, c.k, c.l, c.Bgbit, KT(), KB(), 71); ep.to = seq_now(); function_cases(S, ep); ek::destroy(S); }
     }
     {
         ek::Set *S = nullptr; Env E; TFheGateBootstrappingParameterSet *ps = nullptr; CK *ck = nullptr;
-        Epoch ep8; ep8.from = seq_now(); S = ek::make(8, 1, 2, 10, 8, 2, 73); ps = new TFheGateBootstrappingParameterSet(8, 2, S->lp, S->gp); ck = new CK(ps, S->bk, S->bkFFT); ep8.to = seq_now();
+        Epoch ep8; ep8.from = seq_now(); S = ek::make(8, 1, 2, 10, KT(), KB(), 73); ps = new TFheGateBootstrappingParameterSet(KT(), KB(), S->lp, S->gp); ck = new CK(ps, S->bk, S->bkFFT); ep8.to = seq_now();
         E = {ep8, "tiny-n8", S->lp, ck, S->s, [=] { return hash_bk(S->bk, S->bkFFT); }, 8};
         gate_cases(E, true);
+        ek::destroy(S);   // (also returns its guarded blocks to the budget of the next key set)
     }
     {   // an odd dimension: the tails of the vectorised loops run
-        Epoch ep7; ep7.from = seq_now(); ek::Set *S = ek::make(7, 1, 3, 7, 8, 2, 75); TFheGateBootstrappingParameterSet *ps = new TFheGateBootstrappingParameterSet(8, 2, S->lp, S->gp); CK *ck = new CK(ps, S->bk, S->bkFFT); ep7.to = seq_now();
+        Epoch ep7; ep7.from = seq_now(); ek::Set *S = ek::make(7, 1, 3, 7, KT(), KB(), 75); TFheGateBootstrappingParameterSet *ps = new TFheGateBootstrappingParameterSet(KT(), KB(), S->lp, S->gp); CK *ck = new CK(ps, S->bk, S->bkFFT); ep7.to = seq_now();
         Env E = {ep7, "tiny-n7", S->lp, ck, S->s, [=] { return hash_bk(S->bk, S->bkFFT); }, 7};
         gate_cases(E, false);
+        ek::destroy(S);
     }
     if (opt("default", quick() ? "128" : "both") != "none") for (int lam : {128, 80}) { if (lam == 80 && quick()) continue;
         uint32_t sd[2] = {(uint32_t)lam, 5}; tfhe_random_generator_setSeed(sd, 2);
